@@ -35,7 +35,7 @@ REQUIRED = {"rerun.lists_exactly_unsuccessful": {"quick": 500, "thorough": 25000
             "rerun.lists_what_the_reference_model_says_failed": {"quick": 150, "thorough": 8000},
             "rerun.scenario_whose_hook_raised_is_listed": {"quick": 40, "thorough": 2000}}
 REQUIRED_SEEN = {"listed_status": ["failed", "error", "hook_error"], "feature_order": ["directory", "explicit_reversed", "explicit_one_file_twice"],
-                 "fail_fast_environment": ["feature", "rule"], "nested_sub_step": ["undefined", "fail", "error"], "second_run_environment": ["autoretry_recipe", "plain"], "first_run_selection": ["name_pattern_matching_rows_only"], "program_shape": ["stepless_scenarios"], "run_ends_by": ["user_abort_possible"], "wip_run_with_rerun_by_config": ["some_listed", "none_to_list"], "rerun_file_directory": ["exists", "1_levels_to_create", "2_levels_to_create", "3_levels_to_create"], "stepless_scenario_with_raising_hook_under_fail_fast": ["before_scenario", "after_scenario", "before_tag", "after_tag"], "rerun_loop_shape": ["input_only", "same_file_in_and_out", "same_file_in_and_out_by_config"], "raising_hook_of_listed_scenario": ["before_tag", "after_tag", "before_scenario", "before_step"]}
+                 "fail_fast_environment": ["feature", "rule"], "nested_sub_step": ["undefined", "fail", "error"], "second_run_environment": ["autoretry_recipe", "plain"], "first_run_selection": ["name_pattern_matching_rows_only"], "program_shape": ["stepless_scenarios"], "hook_habit": ["reads_statuses"], "run_ends_by": ["user_abort_possible"], "wip_run_with_rerun_by_config": ["some_listed", "none_to_list"], "rerun_file_directory": ["exists", "1_levels_to_create", "2_levels_to_create", "3_levels_to_create"], "stepless_scenario_with_raising_hook_under_fail_fast": ["before_scenario", "after_scenario", "before_tag", "after_tag"], "rerun_loop_shape": ["input_only", "same_file_in_and_out", "same_file_in_and_out_by_config"], "raising_hook_of_listed_scenario": ["before_tag", "after_tag", "before_scenario", "before_step"]}
 NSHARDS = {"quick": 16, "thorough": 16}
 
 
@@ -117,6 +117,17 @@ def one_history(lab, mon, rng, case, stale, sample=False):
         if fail_fast:
             plugins.append(skip_rest)
             mon.seen("fail_fast_environment", fail_fast)
+        if case.get("hooks_read_status"):
+            # hooks that LOOK at the statuses of what is running (feature.status, rule.status, the outline's) before anything else
+            def reader(state, context, name, elem, tag):
+                for obj in (elem, getattr(getattr(context, "scenario", None), "parent", None), getattr(context, "rule", None), getattr(context, "feature", None)):
+                    if obj is not None and hasattr(obj, "status"):
+                        try:
+                            _ = obj.status
+                        except Exception:
+                            pass
+            plugins.insert(0, reader)
+            mon.seen("hook_habit", "reads_statuses")
         cleanup_owner = []
         if case.get("raising_cleanup"):
             # a scenario whose steps pass but whose cleanup raises ended in an error-class status: it belongs into the report
@@ -440,7 +451,7 @@ def run(spec, mon):
             obs0 = lab.run(case["program"], args=case["args"])
             ks = [k for k, h in enumerate(obs0.hooks) if h[0] in ("before_scenario", "after_scenario", "before_step", "after_step", "before_tag", "after_tag")]
             if ks:
-                case = dict(case, hook_fault={"k": rng.choice(ks), "exc": rng.choice(["Exception", "AssertionError"])})
+                case = dict(case, hook_fault={"k": rng.choice(ks), "exc": rng.choice(["Exception", "AssertionError"])}, hooks_read_status=(i % 8 == 1))
         if i % 5 == 3:
             case = dict(case, fail_fast=rng.choice(["feature", "rule"]))
         if i % 6 == 1 and not case.get("hook_fault") and not case.get("fail_fast"):
